@@ -74,6 +74,9 @@ type model struct {
 	raced map[oid.Address]bool
 	// resynced: a live resync happened after such a race
 	resynced map[oid.Address]bool
+	// stored: a put of the object succeeded and it was not removed since
+	// (only for the non-triviality rule: removing a never-stored object is trivial)
+	stored map[oid.Address]bool
 	// kind of the operation currently applied (nesting: race > inner)
 	kinds []string
 	// statistics for the non-triviality rule
@@ -121,7 +124,10 @@ func (m *model) complete(a oid.Address) {
 	}
 	if !m.removed[a] {
 		m.removed[a] = true
-		m.completions++
+		if m.stored[a] {
+			m.completions++
+		}
+		delete(m.stored, a)
 	}
 	if m.r.ParkedNow {
 		for _, p := range m.r.Parked {
@@ -235,7 +241,7 @@ func TestC09Removed(t *testing.T) {
 		}
 		defer r.Cleanup()
 		w := crashrig.NewWorld(r)
-		m := &model{r: r, removed: map[oid.Address]bool{}, raced: map[oid.Address]bool{}, resynced: map[oid.Address]bool{}, eventsAfter: map[string]bool{}}
+		m := &model{r: r, removed: map[oid.Address]bool{}, raced: map[oid.Address]bool{}, resynced: map[oid.Address]bool{}, stored: map[oid.Address]bool{}, eventsAfter: map[string]bool{}}
 		r.OnStep = m.onStep
 		r.SnapMeta = m.snapMeta
 		// crash snapshots matter only once something has been removed
@@ -246,6 +252,8 @@ func TestC09Removed(t *testing.T) {
 			cfgs   = fmt.Sprintf("wc=%v cache=%d", cfg.WC, cfg.WCMaxSize)
 			labels = map[string]bool{}
 			known  bool
+			// objects of this history already counted as excluded known-finding cases
+			knownSeen = map[oid.Address]bool{}
 		)
 		// st is the model state the observation belongs to (the live one, or the
 		// one recorded with the crash snapshot)
@@ -255,7 +263,10 @@ func TestC09Removed(t *testing.T) {
 			if st.raced[v.addr] && (st.resynced[v.addr] || strings.Contains(v.where, "resync")) {
 				if rec.Known(fpRace) {
 					known = true
-					rec.Excluded(1)
+					if !knownSeen[v.addr] {
+						knownSeen[v.addr] = true
+						rec.Excluded(1)
+					}
 					return
 				}
 				t.Fatalf("C09 violated [%s]: removed object %s readable again: %s (%s)%s\n  shard: %s\n  history: %s\n  op errors: %v",
@@ -330,9 +341,10 @@ func TestC09Removed(t *testing.T) {
 			}
 			switch op.Kind {
 			case crashrig.KPut:
-				if wasRem[len(wasRem)-1] && opErr != nil {
+				if opErr == nil {
+					m.stored[crashrig.RegAddr(op.C, op.I)] = true
+				} else if wasRem[len(wasRem)-1] {
 					m.complete(crashrig.RegAddr(op.C, op.I))
-					m.completions--
 				}
 				wasRem = wasRem[:len(wasRem)-1]
 			case crashrig.KGC:
@@ -457,6 +469,9 @@ func TestC09Removed(t *testing.T) {
 		}
 		if strings.Contains(crashrig.OpsString(ops), "tomb(") && m.completions > 0 {
 			labels["tombstone+removal"] = true
+		}
+		if len(m.removed) > 0 || m.snapsChecked > 0 {
+			labels["something-in-Removed(incl. never-stored targets)"] = true
 		}
 		nontrivial = m.completions > 0 && (len(m.eventsAfter) > 0 || m.snapsChecked > 0)
 		if rec.WantSample() && nontrivial {
